@@ -13,6 +13,7 @@ package xrep
 //@   immutable: closeQ
 //@   invariant 1 <= ttl && ttl <= 255
 //@   invariant sendQLen >= 0
+//@   elem_invariant recvQ: !shared(elem)
 //@
 //@ func (*pipe).receiver
 //@   ghost body0 = result.Body at call:RecvMsg#1
